@@ -80,6 +80,25 @@ def modifier_of(s):
     raise ValueError(s)
 
 
+class _Drop(__import__('logging').Handler):
+    def emit(self, record):
+        record.getMessage()
+
+
+def _debug_loggers():
+    import logging
+    for name in ('UdsClient[dbg]', 'Connection[stubdbg]'):
+        lg = logging.getLogger(name)
+        lg.setLevel(logging.DEBUG)
+        lg.propagate = False
+        if not lg.handlers:
+            lg.addHandler(_Drop())
+
+
+_debug_loggers()
+_made = {'n': 0}
+
+
 def make_client(cfg, extra=None):
     conn = stub.StubConn(CLOCK)
     config = dict(default_client_config)
@@ -92,6 +111,11 @@ def make_client(cfg, extra=None):
         config['nrc78_callback'] = lambda: conn.log.append(('callback',))
     if extra:
         config.update(extra)
+    # every second client logs at DEBUG level into a handler that formats each record and drops it (an application that traces its diagnostics);
+    # the others keep the level the process has.  What a client does must not depend on it.
+    _made['n'] += 1
+    if _made['n'] % 2 == 0 and 'logger_name' not in config:
+        config['logger_name'] = 'dbg'
     c = Client(conn, config=config)
     if cfg.tp2 is not None:
         c.session_timing.p2_server_max = cfg.tp2 * TICK
